@@ -4,7 +4,7 @@ import io
 import time
 
 from .base import Monitor
-from ..harness import Core, DEFAULT_EXT, digest
+from ..harness import hook_gcode, Core, DEFAULT_EXT, digest
 from ..gen import gen_regions, fmt
 from ..refprinter import tokenize
 
@@ -167,7 +167,7 @@ class C09(Monitor):
         ext.update({"M900": rnd.choice(["merge", "first", "last", "exclude"])})
         settings = dict(g90e=rnd.random() < 0.5, ext=ext, debug=rnd.random() < 0.33,
                         enter=rnd.choice([None, ["M117 in"]]), exit=rnd.choice([None, ["M117 out"]]))
-        entry = rnd.choice(["handle", "stream"])
+        entry = rnd.choice(["handle", "handle", "stream", "stream", "hook"])
         lines = None
         if entry == "stream":
             lines = [wrap_line(rnd, c, i) for i, c in enumerate(cmds)]
@@ -187,8 +187,8 @@ class C09(Monitor):
             for i, st in enumerate(case["steps"]):
                 try:
                     if st[0] == "g":
-                        code, sub, _ = tokenize(st[1])
-                        res = core.handlers.handleGcode(st[1], "T" if code[0] == "T" else code, sub)
+                        gc, sub = hook_gcode(st[1])
+                        res = core.handlers.handleGcode(st[1], gc, sub)
                         stats["c09_commands"] += 1
                         ok = (res is None) or (isinstance(res, tuple) and res == (None,)) or \
                              (isinstance(res, list) and len(res) > 0 and all(isinstance(x, str) and x for x in res))
@@ -210,15 +210,31 @@ class C09(Monitor):
                     break
                 if core.state.excluding:
                     opened = True
-        elif case["entry"] == "handle":
+        elif case["entry"] in ("handle", "hook"):
+            plug = None
+            if case["entry"] == "hook":
+                # the same sequence through the registered queuing hook of the real plugin object (settings stored, regions added
+                # through the API, a print started), called the way OctoPrint calls it
+                from ..harness import Plugin, region_payload
+                st = dict(case["settings"], clear=False, shrink=False)
+                for key in ("enter", "exit"):
+                    if isinstance(st.get(key), (list, tuple)):
+                        st[key] = "\n".join(st[key]) + "\n"
+                plug = Plugin(st)
+                for r in case["regions"]:
+                    plug.api("addExcludeRegion", region_payload(r))
+                plug.event("PrintStarted")
+                core = plug
             for i, cmd in enumerate(case["cmds"]):
-                code, sub, _ = tokenize(cmd)
-                if code is None:
+                gc, sub = hook_gcode(cmd)
+                if gc is None:
                     continue
-                gc = "T" if code[0] == "T" else code
                 t0 = time.time()
                 try:
-                    res = core.handlers.handleGcode(cmd, gc, sub)
+                    if plug is not None:
+                        res = plug.h_gcode(plug.comm, "queuing", cmd, None, gc, subcode=sub, tags=set()) if plug.h_gcode else None
+                    else:
+                        res = core.handlers.handleGcode(cmd, gc, sub)
                 except Exception as exc:  # noqa: B902
                     v.append(dict(kind="exception", idx=i, cmd=cmd, detail="%s: %s" % (type(exc).__name__, exc), mechanism=None))
                     break
